@@ -68,7 +68,8 @@ func (e *Embed) GenerateOutput(textOnly bool) string {
 	// TODO: Maybe just to be save we should sanitize it.
 	tagName := dom.TagName(e.Element)
 	if tagName == "blockquote" || tagName == "iframe" {
-		dom.RemoveNodes(dom.GetAllNodesWithTag(e.Element, "script", "style"), nil)
+		// Frames inside a tweet have not been checked by any extractor.
+		dom.RemoveNodes(dom.GetAllNodesWithTag(e.Element, "script", "style", "iframe", "object", "embed"), nil)
 		domutil.StripAttributes(e.Element)
 		dom.AppendChild(embed, e.Element)
 	}
